@@ -1161,10 +1161,15 @@ func TestCheck(t *testing.T) {
 	runBasic(t, r)
 	runForward(t, r)
 	runCombined(t, r)
+	t0 := time.Now()
 	runTolerance(t, r)
+	t1 := time.Now()
 	runReloadSequential(t, r)
+	t2 := time.Now()
 	runHMAC(t, r, deadline)
+	t3 := time.Now()
 	runReloadSched(t, r)
+	r.Set("wall_parts", fmt.Sprintf("tolerance=%.1fs reload-seq=%.1fs hmac=%.1fs reload-sched=%.1fs", t1.Sub(t0).Seconds(), t2.Sub(t1).Seconds(), t3.Sub(t2).Seconds(), time.Since(t3).Seconds()))
 
 	r.Set("rule", "complete finite products, one real request per element through the ingress handler wired by startServers from DSL text. "+
 		"HMAC = {secret set: 1 inline | 2 overlapping secret_ref versions | inline+version (thorough: 3 adjacent versions with an open end, 1 s tolerance)} x {header names: default | custom} x "+
